@@ -59,7 +59,7 @@ def bin_group(op, a, b, extended):
 
 @family('binop')
 def fam_binop(tier):
-    thorough = tier == 'thorough'
+    thorough = tier != 'small'
     INTS_ = INTS + ([3, 65536, (1 << 31) - 1, -(1 << 31) - 1, (1 << 32) - 1, 1 << 62] if thorough else [])
     FLOATS_ = FLOATS + ([-0.0, 1.0, -2.5, 1e-7, 1e20, 12345678.0] if thorough else [])
     # int x int: every operator, full alphabet
@@ -272,12 +272,16 @@ def d2_group(shape, op1, op2, a, b, c):
     g.add('folded-bc', b'mixed @F(' + Ta + b' a) { return ' + mk(b'a', B, C) + b'; }', carg(a))
     g.add('folded-ac', b'mixed @F(' + Tb + b' b) { return ' + mk(A, b'b', C) + b'; }', carg(b))
     g.add('folded-ab', b'mixed @F(' + Tc + b' c) { return ' + mk(A, B, b'c') + b'; }', carg(c))
+    # the same with the runtime leaf declared mixed: its static type must not be guessed from the literal next to it
+    g.add('folded-mixed-a', b'mixed @F(mixed a) { return ' + mk(b'a', B, C) + b'; }', carg(a))
+    g.add('folded-mixed-b', b'mixed @F(mixed b) { return ' + mk(A, b'b', C) + b'; }', carg(b))
+    g.add('folded-mixed-c', b'mixed @F(mixed c) { return ' + mk(A, B, b'c') + b'; }', carg(c))
     return g
 
 
 @family('depth2')
 def fam_depth2(tier):
-    thorough = tier == 'thorough'
+    thorough = tier != 'small'
     ops = D2OPS_T if thorough else D2OPS_Q
     alph = {'i': INTS4, 'f': FLOATS4, 's': STRS4}
     typesets = ['iii', 'iif', 'ifi', 'fii', 'fff'] if thorough else ['iii']
